@@ -195,9 +195,12 @@ func Check(c Case) ([]evid.Violation, info) {
 	b := route.Build(rules, nil)
 	var hits []string
 	opts := []larking.ServerOption{larking.MuxHandleOption(c.Patterns...)}
+	var extraOpts []larking.ServerOption
 	for _, e := range c.Extras {
-		opts = append(opts, larking.HTTPHandlerOption(e, extraHandler{&hits}))
+		extraOpts = append(extraOpts, larking.HTTPHandlerOption(e, extraHandler{&hits}))
 	}
+	// (the extra-handler options come first, so that they are what a server sees first)
+	opts = append(append([]larking.ServerOption{}, extraOpts...), opts...)
 	var srv *http.Server
 	var err error
 	func() {
@@ -210,6 +213,32 @@ func Check(c Case) ([]evid.Violation, info) {
 	}()
 	if err != nil {
 		return []evid.Violation{evid.V("new-server", "", "NewServer(%v, extras %v): %v", c.Patterns, c.Extras, err)}, in
+	}
+	if len(extraOpts) > 0 {
+		// the same option VALUES build a second server with another mount: two servers share nothing, so
+		// neither serves the other's prefix
+		var other *http.Server
+		func() {
+			defer func() {
+				if p := recover(); p != nil {
+					err = fmt.Errorf("panic: %v", p)
+				}
+			}()
+			other, err = larking.NewServer(b.Mux, append(append([]larking.ServerOption{}, extraOpts...), larking.MuxHandleOption("/zz-other"))...)
+		}()
+		if err != nil {
+			return []evid.Violation{evid.V("new-server", "second-server", "a second NewServer with the same extra-handler options and mount /zz-other: %v", err)}, in
+		}
+		if got := run(srv.Handler, b.Rec, build(Req{Proto: "http", Verb: "GET"}, "/zz-other/v1/abc")); got.method != "" {
+			vs = append(vs, evid.V("served-outside-prefix", "other-servers-mount", "patterns %v extras %v: /zz-other/v1/abc is a mount of ANOTHER server built from the same option values, but this server's mux served it (%+v)", c.Patterns, c.Extras, got))
+		}
+		for _, pat := range c.Patterns {
+			if pre := prefixOf(pat); pre != "" {
+				if got := run(other.Handler, b.Rec, build(Req{Proto: "http", Verb: "GET"}, pre+"/v1/abc")); got.method != "" {
+					vs = append(vs, evid.V("served-outside-prefix", "other-servers-mount", "the server mounted on /zz-other alone served %s/v1/abc, a mount of the server built before it from the same option values (%+v)", pre, got))
+				}
+			}
+		}
 	}
 	// the on-the-wire comparison has a mux, a server and connections of its own: nothing it does (late
 	// handler goroutines of net/http included) can reach the recorder the in-process comparison reads
